@@ -54,7 +54,7 @@ def run(ctx):
     ctx.binding_guard(out, cf[0])
     ctx.sample_traces(out)
     ctx.count_distinct(out, lambda t: (t["steps"][0]["ciph"], t["steps"][0]["mode"], t["steps"][0]["dir"],
-                                       tuple((len(s["in"]) // 2, s.get("buf")) for s in t["steps"][1:])))
+                                       tuple((s["op"], len(s.get("in", "")) // 2, s.get("buf")) for s in t["steps"][1:])))
     ctx.assumptions += ["message lengths up to 513 (quick) / 4111 (thorough) bytes; partitions into at most 3 calls with cut lengths from a fixed seam set",
                         "out-of-slice access is observed through PROT_NONE guard pages and canaries around src/dst (in place and disjoint), not proved absent",
                         "toy16 is the toy block cipher of spec/prim/Toy.tla (generic code paths only)"]
